@@ -2,7 +2,7 @@
    types_defined bs l: every tag on the walk has a defined HeaderTagType value (0..10), the
    hypothesis the property makes on enumerated fields. *)
 Require Import Bytes Outcome Layout Common TagType Mbi Header HeaderTags Build WalkSpec Mb2Spec
-               IterFacts HCastFacts LayoutFacts C11Proofs.
+               IterFacts HCastFacts LayoutFacts C11Proofs Big BigProofs HBigProofs.
 From Coq Require Import String.
 Open Scope list_scope.
 Open Scope N_scope.
@@ -51,3 +51,24 @@ Theorem C11_field : forall k m t name o w,
   hfld k m t name = le (slice (m_bytes m) (t_off t + o) w).
 Proof. exact hfld_spec. Qed.
 Print Assumptions C11_field.
+
+(* Headers of ANY number of tags (n copies of one padded tag between the basic header and the end tag): load accepts
+   them, the iterator yields the n tags at 16 + i*L and the end tag, and every typed getter - after walking all of them -
+   yields the closed form `hbig_get`: the first tag when its type is the getter's, nothing otherwise.  This is what the
+   oracle evaluates for the domain `hbigwalk` (n up to 70000), where a list-based run is infeasible. *)
+Theorem C11_big : forall p a tag n k,
+  8 <= le (slice tag 4 4) -> round8 (le (slice tag 4 4)) = len tag -> hbig_total n tag < pow2_32 ->
+  le (slice tag 0 2) <= 10 -> a mod 8 = 0 -> k <> HkEnd ->
+  let T := hbig_total n tag in
+  let m := {| m_base := a; m_bytes := hbig_region n tag |} in
+  hdr_load p false m = Val {| d_off := 0; d_plen := T - 16 |} /\
+  tagiter_run (iter_fuel (T - 16)) p HHdrTagH m 16 (T - 16) 0 = (map dref_of (hitems tag n), Val tt) /\
+  walk (hbig_region n tag) T 16 (hitems tag n) true /\
+  hget_tag p k m {| d_off := 0; d_plen := T - 16 |} = hbig_get k (N.of_nat n) (le (slice tag 0 2)) (le (slice tag 4 4)).
+Proof.
+  intros p a tag n k H1 H2 H3 H4 Ha Hk T m.
+  split; [exact (hbig_load tag n H1 H2 H3 H4 p a Ha)|].
+  split; [exact (hbig_run tag n H1 H2 H3 H4 p a Ha)|].
+  split; [exact (hbig_walk tag n H1 H2 H3 H4)|exact (hbig_getter tag n H1 H2 H3 H4 p a k Ha Hk)].
+Qed.
+Print Assumptions C11_big.
